@@ -304,6 +304,10 @@ func (l *irLoader) loadRule(group *ir.RuleGroup, rule *ir.Rule) error {
 		proto.filter = filter
 	}
 
+	if err := l.checkTemplateVars(group, rule); err != nil {
+		return err
+	}
+
 	for _, pat := range rule.SyntaxPatterns {
 		if err := l.loadSyntaxRule(group, proto, info, rule, pat.Value, pat.Line); err != nil {
 			return err
@@ -339,6 +343,85 @@ func (l *irLoader) loadCommentRule(resultProto goRule, filterInfo filterInfo, ru
 	dst.commentRules = append(dst.commentRules, result)
 
 	return nil
+}
+
+// checkTemplateVars checks that a variable that is interpolated into the
+// report or suggestion template is bound by every pattern alternative.
+// A rule with a single pattern can't fail that check: a $name that
+// doesn't refer to a pattern variable is a text there.
+func (l *irLoader) checkTemplateVars(group *ir.RuleGroup, rule *ir.Rule) error {
+	if len(rule.SyntaxPatterns)+len(rule.CommentPatterns) < 2 {
+		return nil
+	}
+	if !strings.Contains(rule.ReportTemplate, "$") && !strings.Contains(rule.SuggestTemplate, "$") {
+		return nil
+	}
+
+	var alternatives []map[string]struct{}
+	for _, pat := range rule.SyntaxPatterns {
+		_, info, err := l.gogrepCompile(group, pat.Value)
+		if err != nil {
+			return nil // Will be reported for that pattern
+		}
+		alternatives = append(alternatives, info.Vars)
+	}
+	for _, pat := range rule.CommentPatterns {
+		re, err := regexp.Compile(pat.Value)
+		if err != nil {
+			return nil // Will be reported for that pattern
+		}
+		vars := make(map[string]struct{})
+		for _, name := range re.SubexpNames() {
+			if name != "" {
+				vars[name] = struct{}{}
+			}
+		}
+		alternatives = append(alternatives, vars)
+	}
+
+	allVars := make(map[string]struct{})
+	for _, vars := range alternatives {
+		for name := range vars {
+			allVars[name] = struct{}{}
+		}
+	}
+	for _, template := range []string{rule.ReportTemplate, rule.SuggestTemplate} {
+		for _, name := range templateVars(template, allVars) {
+			for _, vars := range alternatives {
+				if _, ok := vars[name]; !ok {
+					return l.errorf(rule.Line, nil, "template refers to a var %s that is not bound by every pattern", name)
+				}
+			}
+		}
+	}
+	return nil
+}
+
+// templateVars returns the vars that are interpolated into a template:
+// every $ is followed by the longest of the var names it can be followed by.
+func templateVars(template string, vars map[string]struct{}) []string {
+	var result []string
+	for i := 0; i < len(template); i++ {
+		if template[i] != '$' {
+			continue
+		}
+		rest := template[i+1:]
+		if strings.HasPrefix(rest, "$") {
+			i++ // $$ is the entire match
+			continue
+		}
+		longest := ""
+		for name := range vars {
+			if len(name) > len(longest) && strings.HasPrefix(rest, name) {
+				longest = name
+			}
+		}
+		if longest != "" {
+			result = append(result, longest)
+			i += len(longest)
+		}
+	}
+	return result
 }
 
 // checkBoundVars checks that a pattern alternative binds every variable
